@@ -111,6 +111,8 @@ func changedSections(a, b string) string {
 	return strings.Join(out, "+")
 }
 
+func storeFails(end string) bool { return end == "retbig" || end == "retmax" }
+
 func hasEnding(f *frame, end string, createOnly bool) bool {
 	for _, a := range f.acts {
 		switch a.kind {
@@ -406,14 +408,14 @@ func (p *probeState) end(tx *txn, res txResult) {
 		if !p.h.cfg.p013 {
 			cfg = "pre013"
 		}
-		if (tx.create && tx.body.end == "retbig") || hasEnding(tx.body, "retbig", true) {
+		if (tx.create && storeFails(tx.body.end)) || hasEnding(tx.body, "retbig", true) || hasEnding(tx.body, "retmax", true) {
 			cfg += ":codestore-oog" // downstream of a CREATE that failed with ErrCodeStoreOutOfGas and was not reverted
 		}
 		p.report("receipt-logs:"+cfg, fmt.Sprintf("receipt.Logs carries %v, the transaction's surviving LOGs are %v", logTags(res.receipt), want))
 	}
 	if !sameInts(logTags(res.returned), want) && res.err == "ok" {
 		key := "returned-logs:reverted-subframe"
-		if (tx.create && tx.body.end == "retbig") || hasEnding(tx.body, "retbig", true) {
+		if (tx.create && storeFails(tx.body.end)) || hasEnding(tx.body, "retbig", true) || hasEnding(tx.body, "retmax", true) {
 			key = "returned-logs:codestore-oog"
 		}
 		p.report(key, fmt.Sprintf("evm returned logs %v (receipt result JSON), surviving LOGs are %v", logTags(res.returned), want))
@@ -457,6 +459,7 @@ func runReplay(a map[string]string) {
 
 func runLines(h *harness, lines []string, emit func(op, res string)) {
 	var blk *block
+	var nextFork blockCfg
 	var pending []string // rtx lines of a real-loop block, executed at `rend`
 	for _, line := range lines {
 		line = strings.TrimSpace(line)
@@ -494,10 +497,24 @@ func runLines(h *harness, lines []string, emit func(op, res string)) {
 		}
 		res := hx.Guard(func() string {
 			switch t[0] {
+			case "fork":
+				if len(t) != 3 || (t[1] != "mainnet" && t[1] != "robin") {
+					return "bad-op"
+				}
+				hgt, err := strconv.ParseUint(t[2], 10, 64)
+				if err != nil {
+					return "bad-op"
+				}
+				nextFork = blockCfg{sched: t[1], height: hgt}
+				return "ok"
 			case "reset":
 				b, err := parseReset(t)
 				if err != nil {
 					return "bad-op"
+				}
+				if nextFork.sched != "" {
+					b.cfg.sched, b.cfg.height = nextFork.sched, nextFork.height
+					nextFork = blockCfg{}
 				}
 				blk = b
 				return h.reset(b)
@@ -616,7 +633,7 @@ func runSearch(a map[string]string) {
 		}
 		p.viols = nil
 	}
-	cfgs := []blockCfg{{true, true, true}, {false, true, true}, {true, false, true}, {true, false, false}}
+	cfgs := []blockCfg{{p013: true, p007: true, cbn: true}, {p013: false, p007: true, cbn: true}, {p013: true, p007: false, cbn: true}, {p013: true, p007: false, cbn: false}}
 	// 1. the matrix: frame kind x failure mode x op x depth, and STATICCALL x op x nesting kind x depth
 	type fk struct {
 		kind string
@@ -625,7 +642,7 @@ func runSearch(a map[string]string) {
 	kinds := []fk{
 		{"call", []string{"revert", "invalid", "oog"}}, {"callcode", []string{"revert", "invalid", "oog"}},
 		{"delegatecall", []string{"revert", "invalid", "oog"}}, {"staticcall", []string{"revert", "invalid", "oog", "stop"}},
-		{"create", []string{"revert", "invalid", "oog", "retbig", "rethuge"}}, {"create2", []string{"revert", "invalid", "oog", "retbig", "rethuge"}},
+		{"create", []string{"revert", "invalid", "oog", "retbig", "retmax", "rethuge"}}, {"create2", []string{"revert", "invalid", "oog", "retbig", "retmax", "rethuge"}},
 		{"authcall", []string{"revert", "invalid", "oog"}},
 	}
 	mk := func(g *gen, kind, end string, ops []*act, value int) *act {
